@@ -221,6 +221,14 @@ func TestC20(t *testing.T) {
 		Assumptions: []string{"the generator's own RNG is crypto-seeded: the verdict is deterministic only because it is a validity predicate"},
 		Gen: func(t *rapid.T) C20Case {
 			l := genCLILayout(t)
+			if rapid.IntRange(0, 299).Draw(t, "giantArchive") == 137 {
+				// more points in one archive than any plausible write batch (2^16 and beyond), as in 1s:1d
+				n := rapid.SampledFrom([]int64{65535, 65536, 65537, 70000, 86400, 131072, 131073}).Draw(t, "giantPoints")
+				l = Layout{Archives: []Arch{{Step: 1, Points: n}}, Method: l.Method, XFF: l.XFF}
+				if rapid.Bool().Draw(t, "giantSecond") {
+					l.Archives = append(l.Archives, Arch{Step: 60, Points: n/60 + 2 + rapid.Int64Range(0, 100).Draw(t, "giantSecondExtra")})
+				}
+			}
 			now := genNowRealistic(t, l)
 			if rapid.IntRange(0, 7).Draw(t, "epochHigh") == 0 {
 				now = rapid.Int64Range(1<<31, 1<<32-4*l.MaxRet()-100000).Draw(t, "nowHigh") // 2038 .. 2106
@@ -243,5 +251,13 @@ func TestC20(t *testing.T) {
 			return c
 		},
 		Run: runC20,
+		Fixed: func() []C20Case {
+			// more points in one archive than any plausible write batch (the generator reaches these sizes only
+			// in the thorough tier)
+			return []C20Case{
+				{Now: 1500000123, L: Layout{Archives: []Arch{{Step: 1, Points: 65537}}, Method: 1, XFF: 0.5}, Max: 100, Fill: true},
+				{Now: 1500000059, L: Layout{Archives: []Arch{{Step: 1, Points: 131073}, {Step: 60, Points: 2200}}, Method: 2, XFF: 0}, Max: 7, Fill: true, Skew: 1},
+			}
+		},
 	})
 }
